@@ -4,6 +4,7 @@ One integer decides everything: VERIF_SEED -> run_seed(i) -> (plan stream, serve
 Nothing in here reads a wall clock, the numpy global RNG, hash() of strings or id().
 """
 from __future__ import annotations
+import re
 import hashlib
 import json
 import random
@@ -62,7 +63,7 @@ class Ctx:
         self._hash = hashlib.sha256()
         self.violations = []             # unlisted violations (dicts)
         self.known_hits = Counter()      # signature -> count (listed open findings seen)
-        self.known_open = set(known_open)
+        self.known_open = sorted(set(known_open))
         self.probes = Counter()
         self.faults = Counter()
         self.behaviours = set()          # distinct behaviour signatures reached
@@ -102,9 +103,10 @@ class Ctx:
         """Report a mismatch. Returns True if it is a listed (open) known finding that is
         tolerated (caller should resynchronise); otherwise records it and ends the run."""
         full_sig = f'{self.prop}:{signature}'
-        if full_sig in self.known_open:
-            self.known_hits[full_sig] += 1
-            return True
+        for pat in self.known_open:      # listed open findings; a pattern names one call site / history class
+            if pat == full_sig or ('*' in pat and re.fullmatch(re.escape(pat).replace('\\*', '.*'), full_sig)):
+                self.known_hits[pat] += 1
+                return True
         v = {'property': self.prop, 'check': check, 'signature': full_sig,
              'message': message[:2000], 'at_seq': self.seq}
         if detail:
